@@ -21,6 +21,20 @@ C = {
  "C05": dict(cat="model_checking", ref="7 C05",
       text="Statistics results, FSInfo after unmount and every NotEnoughSpace result of fill/delete cycles and mixed histories are judged by TLC against the table of the raw image (free = N - used - bad; out-of-space only when legitimately short).",
       tech="TLA+ Fat!FreeCount / FatFsA!SpaceShort evaluated by TLC on traces"),
+ "C09": dict(cat="fault_enumeration", ref="7 C09", engine="tlc-fault",
+      text="Exhaustive single-fault enumeration: for every operation of representative and random histories on FAT12/16/32, every position k of its device-call sequence is failed once; TLC (TraceFault) requires Io(injected) unless the call was issued from a destructor, and never a panic or budget overrun.",
+      tech="single-fault enumeration over device-call positions, outcomes judged by TLC on TraceFault.tla",
+      note="Trusted: the guarded drop-depth hook in /repo (attribution of device calls to destructors), the SimDevice fault injector and call budget. Single faults only."),
+ "C12": dict(cat="model_checking", ref="7 C12",
+      text="At every call boundary of namespace/file histories on volumes whose status byte at mount is clean, dirty, io-error or has reserved bits, TLC checks dirty-bit bracketing of structural changes (computed from raw-image diffs), no bit ever cleared, restoration at unmount/drop, and that mounting the image at that point reports dirty.",
+      tech="TLA+ status-byte rules evaluated by TLC on traces (raw-image diff = structural change)"),
+ "C13": dict(cat="model_checking", ref="7 C13",
+      text="Sessions made only of non-mutating calls on populated FAT12/16/32 volumes (clean, abandoned-dirty, FSInfo unknown, foreign status bits): TLC checks on every event and at drop/unmount that no device write was issued, with the single FSInfo exemption.",
+      tech="TLA+ read-only rule evaluated by TLC on device-write logs of traces"),
+ "C14": dict(cat="fault_enumeration", ref="7 C14",
+      text="For every prefix of the device write log after the first flush point of generated histories, the crash image is mounted afresh; TLC requires every file flushed (up to the last flush the storage has seen) and not modified since to be found with exactly the flushed content.",
+      tech="crash-point enumeration over device write-log prefixes, judged by TLC (TraceFatFs crash events)",
+      note="Trusted: SimDevice write log; power cut modelled as loss of a suffix of the write sequence on a cache that honours flush (no reordering, no torn writes)."),
 }
 checks = []
 for p in props:
@@ -32,7 +46,7 @@ for p in props:
             "thorough_cmd": "./check %s --tier thorough" % p,
             "evidence_file": "/verif/evidence/%s.json" % p,
             "replay_cmd_template": "./check replay {path}",
-            "engine": "tlc-trace",
+            "engine": c.get("engine", "tlc-trace"),
             "level_claimed": {"category": c["cat"], "text": c["text"], "design_ref": "DESIGN.md section " + c["ref"]},
             "level_note": c.get("note", TRACE_NOTE),
             "technique": c["tech"],
@@ -44,7 +58,8 @@ m = {
  "setup_cmd": "./check setup",
  "hooks": {"guard": "fatfs_verif", "enable": "rustflags --cfg fatfs_verif in /verif/harness/.cargo/config.toml (the harness is a separate crate with a path dependency on /repo)",
            "baseline_off_cmd": "python3 /verif/tools/baseline.py", "source_commits": hook_commits, "add_only": True},
- "engines": [{"name": "tlc-trace", "path": "/verif/spec", "serves_properties": sorted(C), "kind_free_text": "TLA+ specification (Names, Fat, DirSlots, TreeModel, FatFsA, Stamps) + TLC; TraceFatFs validates NDJSON traces recorded from the real library by /verif/harness"}],
+ "engines": [{"name": "tlc-fault", "path": "/verif/spec/TraceFault.tla", "serves_properties": ["C09"], "kind_free_text": "TLA+ TraceFault + TLC on fault-enumeration traces produced by `fxh faults`"},
+             {"name": "tlc-trace", "path": "/verif/spec", "serves_properties": sorted(C), "kind_free_text": "TLA+ specification (Names, Fat, DirSlots, TreeModel, FatFsA, Stamps) + TLC; TraceFatFs validates NDJSON traces recorded from the real library by /verif/harness"}],
  "checks": checks,
  "not_applicable": [{"property_id": p, "reason": "check not built yet (build in progress, DESIGN.md section 9)"} for p in props if p not in C],
  "notes": "Every verdict is produced by TLC evaluating the TLA+ specification on traces recorded from the real code; see DESIGN.md.",
